@@ -402,7 +402,8 @@ SPEC = Spec(
         "expression-producing functions (lowering, raising, front end, Python "
         "target): only the documented AssumeNonNegative promise is allowed. "
         "R07-TAGAPI: tag-changing APIs rebuild nodes with every non-tag field "
-        "taken from self."),
+        "taken from self. "
+        "R07-DEPENDS also: every function that asks a result for its loopy expression under a context of its own reads that context's depends_on afterwards on every path (add_substitution reviewed). R07-LOWERING-TAGS counts tag tests in helpers too, and the AssumeNonNegative promise only when tested per index in the branch that lowers that index."),
     not_decided=(
         "Equivalence of the kernels generated under the three strategies, or that "
         "stripping all tags leaves computed values unchanged (needs executing "
